@@ -32,9 +32,12 @@ import (
 // ---------------------------------------------------------------- in-memory DNS
 
 type fakeDNS struct {
-	mu      sync.Mutex
-	hosts   map[string][]netip.Addr // fqdn (with trailing dot, lower case) -> addresses
-	queries int
+	mu       sync.Mutex
+	hosts    map[string][]netip.Addr // fqdn (with trailing dot, lower case) -> addresses
+	queries  int
+	hold     map[string]chan struct{} // queries for these names wait until the channel is closed
+	held     map[string]int           // queries currently or formerly held, per name
+	answered map[string]int           // queries answered, per name
 }
 
 func (d *fakeDNS) dial(ctx context.Context, network, address string) (net.Conn, error) {
@@ -64,9 +67,29 @@ func (d *fakeDNS) serve(c net.Conn) {
 			return
 		}
 		resp := dnsmessage.Message{Header: dnsmessage.Header{ID: h.ID, Response: true, RecursionAvailable: true, RecursionDesired: h.RecursionDesired}, Questions: qs}
+		// a test may hold the answers for a name (to keep a refresh "in flight")
+		for _, q := range qs {
+			name := strings.ToLower(q.Name.String())
+			d.mu.Lock()
+			ch := d.hold[name]
+			if ch != nil {
+				if d.held == nil {
+					d.held = map[string]int{}
+				}
+				d.held[name]++
+			}
+			d.mu.Unlock()
+			if ch != nil {
+				<-ch
+			}
+		}
 		d.mu.Lock()
 		d.queries++
 		for _, q := range qs {
+			if d.answered == nil {
+				d.answered = map[string]int{}
+			}
+			d.answered[strings.ToLower(q.Name.String())]++
 			addrs, ok := d.hosts[strings.ToLower(q.Name.String())]
 			if !ok {
 				resp.Header.RCode = dnsmessage.RCodeNameError
@@ -591,4 +614,149 @@ func TestC18Dial(t *testing.T) {
 	})
 }
 
-func init() { vh.RegisterReplay("C18.dial", vh.Replayer(runC18)) }
+// ---------------------------------------------------------------- the address set changes during an attack
+
+// C18.refresh: with a refresh interval, a connection attempt made well after a refresh has
+// completed goes to the addresses resolved by that refresh - also when another dial happened
+// while the refresh was in flight. The harness holds the DNS answers to keep the refresh in
+// flight (a logical, not a timed, window), dials once, releases, waits 400 ms and dials again.
+// Only the last step depends on the clock (the refresher must store its answer within 400 ms);
+// a stale result is therefore re-tried twice with fresh attackers before it counts.
+
+type c18Refresh struct {
+	Old, New []string // address sets before / after the change
+	TTLms    int
+}
+
+func c18RefreshOnce(c c18Refresh, attempt int) (stale bool, detail string, inconclusive bool) {
+	c18ResolverMu.Lock()
+	defer c18ResolverMu.Unlock()
+	c18Install.Do(func() { net.DefaultResolver = &net.Resolver{PreferGo: true, Dial: c18DNS.dial} })
+	c18Epoch++
+	host := fmt.Sprintf("refresh.e%d.c18.test", c18Epoch)
+	fq := host + "."
+	set := func(addrs []string) {
+		var as []netip.Addr
+		for _, a := range addrs {
+			as = append(as, netip.MustParseAddr(a))
+		}
+		c18DNS.mu.Lock()
+		c18DNS.hosts[fq] = as
+		c18DNS.mu.Unlock()
+	}
+	set(c.Old)
+	rec := &c18Recorder{}
+	tr := &http.Transport{DialContext: rec.DialContext}
+	atk := vegeta.NewAttacker(vegeta.Client(&http.Client{Transport: tr}), vegeta.DNSCaching(time.Duration(c.TTLms)*time.Millisecond))
+	defer atk.Stop()
+	call := 0
+	dial := func() []string {
+		call++
+		before := 0
+		rec.mu.Lock()
+		before = len(rec.dials)
+		rec.mu.Unlock()
+		_, _ = tr.DialContext(context.WithValue(context.Background(), c18CallKey{}, call), "tcp", host+":443")
+		rec.mu.Lock()
+		defer rec.mu.Unlock()
+		var out []string
+		for _, d := range rec.dials[before:] {
+			h, _, _ := net.SplitHostPort(d.Addr)
+			out = append(out, h)
+		}
+		return out
+	}
+	in := func(addrs, set []string) bool {
+		for _, a := range addrs {
+			ok := false
+			for _, s := range set {
+				ok = ok || a == s
+			}
+			if !ok {
+				return false
+			}
+		}
+		return len(addrs) > 0
+	}
+	if d := dial(); !in(d, c.Old) {
+		return false, fmt.Sprintf("first dial went to %v, resolved %v", d, c.Old), true
+	}
+	dial()
+	// change the address set and hold the answers of the next lookups (the refresh)
+	release := make(chan struct{})
+	c18DNS.mu.Lock()
+	c18DNS.hosts[fq] = nil
+	if c18DNS.hold == nil {
+		c18DNS.hold = map[string]chan struct{}{}
+	}
+	c18DNS.hold[fq] = release
+	heldBefore := c18DNS.held[fq]
+	c18DNS.mu.Unlock()
+	set(c.New)
+	deadline := time.Now().Add(time.Duration(4*c.TTLms)*time.Millisecond + 5*time.Second)
+	for {
+		c18DNS.mu.Lock()
+		h := c18DNS.held[fq]
+		c18DNS.mu.Unlock()
+		if h > heldBefore {
+			break
+		}
+		if time.Now().After(deadline) {
+			c18DNS.mu.Lock()
+			delete(c18DNS.hold, fq)
+			c18DNS.mu.Unlock()
+			close(release)
+			return false, "no refresh lookup arrived", true
+		}
+		time.Sleep(2 * time.Millisecond)
+	}
+	d1 := dial() // while the refresh is in flight: still the old set (or already the new one)
+	c18DNS.mu.Lock()
+	delete(c18DNS.hold, fq)
+	c18DNS.mu.Unlock()
+	close(release)
+	time.Sleep(400 * time.Millisecond)
+	d2 := dial()
+	if in(d2, c.New) {
+		return false, "", false
+	}
+	return true, fmt.Sprintf("attempt %d: refresh every %dms, address set changed from %v to %v; a dial made while the refresh was in flight went to %v; 400 ms after the refresh had its answers a dial still went to %v", attempt, c.TTLms, c.Old, c.New, d1, d2), false
+}
+
+func runC18Refresh(c c18Refresh) error {
+	var last string
+	for attempt := 1; attempt <= 3; attempt++ {
+		stale, detail, inconclusive := c18RefreshOnce(c, attempt)
+		if inconclusive {
+			vh.Note("C18.refresh inconclusive attempt: %s", detail)
+			return nil
+		}
+		if !stale {
+			return nil
+		}
+		last = detail
+	}
+	return fmt.Errorf("connection attempts keep going to addresses that are no longer resolved for the host (3 attempts): %s", last)
+}
+
+func TestC18Refresh(t *testing.T) {
+	vh.ShrinkTime("1s")
+	vh.Check(t, 1, 6, func(t *rapid.T) {
+		c := c18Refresh{TTLms: rapid.SampledFrom([]int{1200, 1500}).Draw(t, "ttl")}
+		n := rapid.IntRange(1, 3).Draw(t, "n")
+		for i := 0; i < n; i++ {
+			c.Old = append(c.Old, fmt.Sprintf("10.9.0.%d", i+1))
+			c.New = append(c.New, fmt.Sprintf("10.9.1.%d", i+1))
+		}
+		vh.Case("C18.refresh", fmt.Sprintf("%+v", c), true, "address-set-change")
+		vh.Sample("C18.refresh", true, c)
+		if err := runC18Refresh(c); err != nil {
+			vh.Fail(t, "C18", "C18.refresh", c, err)
+		}
+	})
+}
+
+func init() {
+	vh.RegisterReplay("C18.dial", vh.Replayer(runC18))
+	vh.RegisterReplay("C18.refresh", vh.Replayer(runC18Refresh))
+}
